@@ -20,7 +20,7 @@ open Tsh Tsh.Tr Tsh.Bash
 
 /-- the text of one program call: name, then every argument between double quotes -/
 def callText (c : String × List String) : String :=
-  c.1 ++ (if (c.2.map fun a => "\"" ++ a ++ "\"").isEmpty then "" else " ") ++ " ".intercalate (c.2.map fun a => "\"" ++ a ++ "\"")
+  "\"" ++ stringToString c.1 ++ "\"" ++ (if (c.2.map fun a => "\"" ++ a ++ "\"").isEmpty then "" else " ") ++ " ".intercalate (c.2.map fun a => "\"" ++ a ++ "\"")
 
 theorem appCallString_eq (calls : List (String × List String)) : appCallString calls = " | ".intercalate (calls.map callText) := by
   unfold appCallString callText
@@ -42,28 +42,32 @@ theorem intercalate_blank : ∀ (x : List Char) (xs : List (List Char)),
     simp [this]
 
 theorem callText_toList (name : String) (args : List String) :
-    (callText (name, args)).toList = name.toList ++ quotedRaw (args.map String.toList) := by
+    (callText (name, args)).toList = '"' :: ((stringToString name).toList ++ '"' :: quotedRaw (args.map String.toList)) := by
+  have h2 : ("\"" : String).toList = ['"'] := rfl
   cases args with
-  | nil => simp [callText, quotedRaw]
+  | nil => simp [callText, quotedRaw, String.toList_append, h2]
   | cons a rest =>
     simp only [callText, List.map_cons, List.isEmpty_cons, Bool.false_eq_true, if_false, String.toList_append,
       String.toList_intercalate]
     have h1 : (" " : String).toList = [' '] := rfl
-    have h2 : ("\"" : String).toList = ['"'] := rfl
     rw [h1, intercalate_blank]
     simp [quotedRaw, String.toList_append, h2, List.flatMap_cons, List.map_map]
     induction rest with
     | nil => simp
     | cons b rest ih => simp [String.toList_append, h2, ih]
 
-/-- **Exactly the given arguments.** -/
-theorem command_words (name : String) (args : List String) (hn : name.toList ≠ [])
-    (hb : ∀ c ∈ name.toList, bareChar c = true) (ha : ∀ a ∈ args, plainString a = true) :
+/-- **Exactly the given program and arguments.**  The program NAME is written like an argument (fix: a path with a blank had
+    been split by the shell), so the line is read back as the name and the arguments for every name and every argument without
+    `$` / backquote - blanks, quotes, backslashes, glob characters, leading dashes included. -/
+theorem command_words (name : String) (args : List String) (hn : plainString name = true) (ha : ∀ a ∈ args, plainString a = true) :
     shSplit false none (appCallString [(name, args.map stringToString)]).toList = some (name.toList :: args.map String.toList) := by
   have e : appCallString [(name, args.map stringToString)] = callText (name, args.map stringToString) := by
     simp [appCallString_eq]
-  rw [e, callText_toList]
-  have := words_of_command name.toList (args.map String.toList) hn hb (by
+  rw [e, callText_toList, shSplit.eq_def]
+  simp only [show ('"' == ' ') = false by decide, Bool.false_eq_true, if_false, beq_self_eq_true, if_true, Option.getD_none]
+  have hp : ∀ c ∈ name.toList, plainChar c = true := by simpa [plainString] using hn
+  rw [stringToString_toList, shSplit_inq [] _ name.toList _ (by simpa using dq_roundtrip name.toList [] _ hp)]
+  have := shSplit_args (args.map String.toList) name.toList (by
     intro a ha'
     simp at ha'
     obtain ⟨s, hs, rfl⟩ := ha'
